@@ -62,6 +62,8 @@ func init() {
 			ruleTruncateOnClose(r)
 			ruleOffsetAccounting(r)
 			ruleWriterErrflow(r)
+			// (repeat: eos — what an older, longer file leaves behind the writer's last byte is decoded as records)
+			ruleCreateTruncates(r)
 		})
 }
 
